@@ -164,6 +164,21 @@ struct xobj {
     xobj(const xobj &o) : serial(o.serial), pad{o.pad[0], o.pad[1]} { ev(2); }
     ~xobj() { ev(4); }
 };
+// an over-aligned extra object (alignment 16, like anything holding a long double / __int128 / SSE value) ...
+struct alignas(16) xobj16 {
+    long serial;
+    long pad[3];
+    explicit xobj16(long s) : serial(s), pad{s + 1, s + 2, s + 3} { ev(2); }
+    xobj16(const xobj16 &o) : serial(o.serial), pad{o.pad[0], o.pad[1], o.pad[2]} { ev(2); }
+    ~xobj16() { ev(4); }
+};
+// ... and a small one whose size is not a multiple of the pointer size
+struct xobj4 {
+    int serial;
+    explicit xobj4(long s) : serial((int)s) { ev(2); }
+    xobj4(const xobj4 &o) : serial(o.serial) { ev(2); }
+    ~xobj4() { ev(4); }
+};
 
 // ---- the coroutine type: a plain task, frame lifetime under the harness's control ----
 struct task {
